@@ -38,6 +38,9 @@ PrefixValid(ms, n) ==
 CrashOK(D, J, F) ==
   \A f \in F : ValidSeq(D[f]) \/ (J[f].st = "offset" /\ PrefixValid(D[f], J[f].n))
 
+\* a journal with an offset exists only for the archive being appended to and names its length before the append
+JournalNamesOK(J, F, cf, before) == \A f \in F : J[f].st = "offset" => (f = cf /\ J[f].n = Size(before))
+
 \* after a handled I/O error (cls = class of the failing operation; the journal's own unlink is waived: if the
 \* unlink is what fails the journal cannot be gone, and the record is complete)
 FaultContentOK(cls, before, after) == cls \in {"journal", "archive"} => after = before
